@@ -9,7 +9,7 @@ use crate::exec::{Case, RunOutput, Shared};
 use crate::plan::{Knobs, Op};
 use crate::simfs::{FaultMode, SimFs};
 use crate::world::*;
-use raindb::{Batch, WriteOptions, DB};
+use raindb::{Batch, RainDbIterator, WriteOptions, DB};
 use raindb_verif_rt as rt;
 use std::collections::BTreeMap;
 use std::sync::Arc;
@@ -273,6 +273,50 @@ pub fn body(case: &Case, out: &Shared) {
                     }
                     if stopped {
                         break;
+                    }
+                }
+                // positioning calls under the fault: a seek that returns Ok and leaves status()
+                // empty must not skip a key that has to be visible nor show an unexplained value
+                if !stopped {
+                    let keys = plan.keys.clone();
+                    let r = call("seek-program", || -> Option<String> {
+                        let mut it = d.new_iterator(raindb::ReadOptions { fill_cache: fill_cache(), snapshot: None }).ok()?;
+                        for k in keys.iter().take(12) {
+                            for t in [k.clone(), { let mut a = k.clone(); a.push(0); a }] {
+                                if it.status().is_some() {
+                                    it = d.new_iterator(raindb::ReadOptions { fill_cache: fill_cache(), snapshot: None }).ok()?;
+                                }
+                                if it.seek(&t).is_err() || it.status().is_some() {
+                                    continue;
+                                }
+                                let pos = if it.is_valid() { it.current().map(|(k, v)| (k.clone(), v.clone())) } else { None };
+                                let mut between: Vec<&Vec<u8>> = keys.iter().filter(|u| **u >= t && pos.as_ref().map(|p| **u < p.0).unwrap_or(true)).collect();
+                                between.sort();
+                                if let Some(u) = between.into_iter().find(|u| !allowed(&writes, u).contains(&None)) {
+                                    return Some(format!("seek to {} returned Ok with no error status, positioned at {} - but key {} lies in between and must be visible", show_key(&t), pos.as_ref().map(|p| show_key(&p.0)).unwrap_or("<invalid>".into()), show_key(u)));
+                                }
+                                if let Some((pk, pv)) = pos {
+                                    if pk < t {
+                                        return Some(format!("seek to {} is positioned before its target, at {}", show_key(&t), show_key(&pk)));
+                                    }
+                                    if !allowed(&writes, &pk).contains(&Some(pv.clone())) {
+                                        return Some(format!("seek to {} shows {} = {} which no write explains", show_key(&t), show_key(&pk), show_val(&pv)));
+                                    }
+                                }
+                            }
+                        }
+                        None
+                    });
+                    match r {
+                        Called::Ok(Some(dsc)) => {
+                            push_finding(out, Finding::new(&["C08"], "seek-ok-but-wrong", &format!("{:?}|{}", mode.unwrap_or(FaultMode::Transient), site(&fs)), format!("{}: {}", fault_label(&fs), dsc), Some(idx)));
+                            stopped = true;
+                        }
+                        Called::Ok(None) => {}
+                        Called::Panicked { message, location } => {
+                            push_finding(out, Finding::new(&["C08"], "panic-under-fault", "seek", format!("{}: an iterator positioning call panicked instead of returning an error: {} at {}", fault_label(&fs), message, location), Some(idx)));
+                            stopped = true;
+                        }
                     }
                 }
             }
